@@ -279,13 +279,13 @@ func (m *blueGreenReleaseManager) doCanaryJump(c *RolloutContext) (jumped bool) 
 // cleanup after rollout is completed or finished
 func (m *blueGreenReleaseManager) doCanaryFinalising(c *RolloutContext) (bool, error) {
 	blueGreenStatus := c.NewStatus.BlueGreenStatus
-	if blueGreenStatus == nil {
-		return true, nil
-	}
 	// rollout progressing complete, remove rollout progressing annotation in workload
 	err := removeRolloutProgressingAnnotation(m.Client, c)
 	if err != nil {
 		return false, err
+	}
+	if blueGreenStatus == nil {
+		return true, nil
 	}
 
 	tr := newTrafficRoutingContext(c)
